@@ -150,7 +150,7 @@ def history(draw):
         sym = draw(st.sampled_from({"new": USER_SYMBOLS, "dup-builtin": DUP_BUILTIN, "invalid": INVALID_SYMBOLS, "padded": PADDED}[sym_kind]))
         slots.append({
             "symbol": sym,
-            "kind": draw(st.sampled_from(["valid", "valid", "valid", "inconsistent", "offdefault"])),
+            "kind": draw(st.sampled_from(["valid", "valid", "valid", "inconsistent", "offdefault", "inconsistent-minor"])),
             "private": draw(st.sampled_from([False, False, True])),
             "container": draw(st.integers(0, 5)) == 0,
         })
@@ -197,6 +197,9 @@ def _make_class(slot):
 
     def _impedance(self, f, R, a):  # noqa: ANN001
         base = R * (2.0 if kind == "inconsistent" else 1.0) * (a if kind == "offdefault" else 1.0)
+        if kind == "inconsistent-minor":
+            # contradiction confined to the minor component: the equation says +j*2*pi*f*1e-12*a, the code computes -j...
+            return np.full(f.shape, base, dtype=complex) - 2j * np.pi * f * 1e-12 * a
         return np.full(f.shape, base, dtype=complex)
 
     return type("UserElement", (Element,), {"_impedance": _impedance})
@@ -212,7 +215,7 @@ def _definition(slot, cls):
     common = dict(Class=cls, symbol=slot["symbol"], name="User element", description="Generated test element.", parameters=params)
     if slot["container"]:
         return ContainerDefinition(equation="R + X_1", subcircuits=[SubcircuitDefinition(symbol="X_1", unit="ohm", description="sub", value=Series([Resistor(R=3.0)]))], **common)
-    return ElementDefinition(equation="R", **common)
+    return ElementDefinition(equation="R + 2*pi*f*1e-12*a*I" if slot["kind"] == "inconsistent-minor" else "R", **common)
 
 
 def run_history(ctx, case):
@@ -284,9 +287,9 @@ def run_history(ctx, case):
             if not _valid_symbol(slot["symbol"]):
                 expect = "refused"
                 labels.add("register:invalid-symbol")
-            elif slot["kind"] == "inconsistent" and op["validate"] in (None, True):
+            elif slot["kind"] in ("inconsistent", "inconsistent-minor") and not slot["container"] and op["validate"] in (None, True) or (slot["kind"] == "inconsistent" and op["validate"] in (None, True)):
                 expect = "refused"
-                labels.add("register:inconsistent-refused")
+                labels.add("register:inconsistent-refused" + ("-minor" if slot["kind"] == "inconsistent-minor" else ""))
             elif sym in reg and reg[sym] is not cls:
                 expect = "refused"
                 labels.add("register:duplicate-symbol" + ("-builtin" if sym in builtins else ""))
@@ -433,7 +436,7 @@ def run_history(ctx, case):
 
 
 REQUIRED_CLASSES = {
-    t: ["register:invalid-symbol", "register:inconsistent-refused", "register:duplicate-symbol-builtin", "register:prefix-or-extension-of-builtin",
+    t: ["register:invalid-symbol", "register:inconsistent-refused", "register:inconsistent-refused-minor", "register:duplicate-symbol-builtin", "register:prefix-or-extension-of-builtin",
         "register:offdefault-accepted", "remove:refused", "set-default:applied", "probe:concatenation", "final:private-symbol-reused"]
     for t in ("quick", "thorough")
 }
